@@ -571,7 +571,7 @@ example :
       some ["s:http".toList, "h:fr".toList, "h:lemonde".toList, "p:a%2Fb".toList] := by
   decide +kernel
 
-/-! ## URLs the parser refuses (FX-C07-FPTOTAL), the modelled parser inside -/
+/-! ## URLs the parser refuses (FX-C07-c806a8b), the modelled parser inside -/
 
 /-- **the fingerprint pair on a string the modelled parser refuses** (`fingerprinted_hostname_unparseable`
 with nothing shipped): `fingerprint_url(u)` is `u.lower()` under both `unsplit`, and — `u` needing no
